@@ -7,6 +7,7 @@ CONSTANTS
   Vals = {"o1", "o2"}
   Depth = 3
   MaxObjs = 3
+  Parents = {"none"}
   Variant = "error_active"
 INVARIANT ExactlyOnce
 INVARIANT RightList
